@@ -16,8 +16,10 @@ def main() -> int:
     print('srctools from', srctools.__file__)
     print('python tokenizer twin in use:', tokenizer.Tokenizer is tokenizer.Py_Tokenizer)
     print('python math twin in use:', smath.Vec is smath.Py_Vec)
-    return 0
+    from tools import fidelity
+    return fidelity.main(400)
 
 
 def selftest() -> int:
-    return 0
+    from tools import fidelity
+    return fidelity.main(6000)
